@@ -441,8 +441,21 @@ func c29Targeted() []targeted {
 			e.atk.Request(&ua.DeleteSubscriptionsRequest{SubscriptionIDs: []uint32{id2}}, e.atkTok, 2*time.Second)
 		}
 	})
+	add("CloseSession with unknown, made-up and already closed tokens and DeleteSubscriptions set, while a subscription of another session exists", func(e *c29Env, cs c29Case) {
+		id := sub(e, cs, 100, 1000, 10)
+		_ = id
+		if ch, tok, err := refpeer.OpenSession(e.addr, e.endpoint); err == nil {
+			ch.Request(&ua.CloseSessionRequest{DeleteSubscriptions: true}, tok, 2*time.Second)
+			ch.Request(&ua.CloseSessionRequest{DeleteSubscriptions: true}, tok, 2*time.Second) // a second time: the token is closed now
+			for _, t := range []*ua.NodeID{ua.NewNumericNodeID(0, 0x7ffffff3), ua.NewGUIDNodeID(1, "12345678-1234-1234-1234-123456789abc"), ua.NewTwoByteNodeID(0), ua.NewStringNodeID(3, "x")} {
+				ch.Request(&ua.CloseSessionRequest{DeleteSubscriptions: true}, t, time.Second)
+				ch.Request(&ua.CloseSessionRequest{DeleteSubscriptions: false}, t, time.Second)
+			}
+			ch.Close()
+		}
+	})
 	add("Client that requests large responses and never reads them", func(e *c29Env, cs c29Case) {
-		rv := make([]*ua.ReadValueID, 3000)
+		rv := make([]*ua.ReadValueID, 20000) // about 1.6 MB per response: some 25 chunks each
 		for i := range rv {
 			rv[i] = &ua.ReadValueID{NodeID: ua.NewNumericNodeID(0, id.Server_NamespaceArray), AttributeID: ua.AttributeIDValue, DataEncoding: &ua.QualifiedName{}}
 		}
